@@ -220,7 +220,95 @@ func genC16(c *Ctx) {
 	}
 }
 
+var c16PersistN int
+
+// c16.persist: client registrations and ACLs through ServiceCore, with restarts (a new ServiceCore
+// on the same security directory).
+func runC16Persist(c *Ctx, in M) (out interface{}) {
+	defer func() {
+		if r := recover(); r != nil {
+			out = "panic:" + fmt.Sprint(r)
+		}
+	}()
+	c16PersistN++
+	dir := filepath.Join(c.Dir, fmt.Sprintf("c16p-%d", c16PersistN))
+	writeNodeKey(dir)
+	env := *c16Hub(c).Env
+	env.SecurityStorageLocation = dir
+	core := security.NewServiceCore(&env)
+	res := []M{}
+	for _, o := range getl(in, "ops") {
+		op := o.([]interface{})
+		switch op[0].(string) {
+		case "register":
+			core.RegisterClient(&security.ClientInfo{ClientID: op[1].(string)})
+		case "unregister":
+			core.RegisterClient(&security.ClientInfo{ClientID: op[1].(string), Deleted: true})
+		case "setacl":
+			core.SetClientAccessControls(op[1].(string), toAcl(op[2].([]interface{})))
+		case "delacl":
+			core.DeleteClientAccessControls(op[1].(string))
+		case "restart":
+			core = security.NewServiceCore(&env)
+		}
+		cl := []string{}
+		for k := range core.GetClients() {
+			cl = append(cl, k)
+		}
+		sort.Strings(cl)
+		all := core.GetAllAccessControls()
+		ks := []string{}
+		for k := range all {
+			ks = append(ks, k)
+		}
+		sort.Strings(ks)
+		acls := []interface{}{}
+		for _, k := range ks {
+			l := []M{}
+			for _, ac := range all[k] {
+				l = append(l, M{"r": ac.Resource, "a": ac.Action, "d": ac.Deny})
+			}
+			acls = append(acls, []interface{}{k, l})
+		}
+		res = append(res, M{"clients": cl, "acls": acls})
+	}
+	return res
+}
+
+func genC16Persist(c *Ctx) {
+	ids := []string{"c1", "c2", "c3"}
+	n := 150
+	if c.Thorough {
+		n = 2500
+	}
+	for i := 0; i < n; i++ {
+		ops := [][]interface{}{}
+		for k := 0; k < 3+c.Rng.Intn(9); k++ {
+			id := ids[c.Rng.Intn(len(ids))]
+			switch r := c.Rng.Intn(10); {
+			case r < 2:
+				ops = append(ops, []interface{}{"register", id})
+			case r < 4:
+				ops = append(ops, []interface{}{"unregister", id})
+			case r < 7:
+				acl := []M{}
+				for a := 0; a < 1+c.Rng.Intn(2); a++ {
+					acl = append(acl, M{"r": []string{"/datasets/a", "/datasets*", "/jobs"}[c.Rng.Intn(3)], "a": []string{"read", "write"}[c.Rng.Intn(2)], "d": c.Rng.Intn(4) == 0})
+				}
+				ops = append(ops, []interface{}{"setacl", id, acl})
+			case r < 8:
+				ops = append(ops, []interface{}{"delacl", id})
+			default:
+				ops = append(ops, []interface{}{"restart"})
+			}
+		}
+		c.Do("c16.persist", M{"ops": ops})
+	}
+}
+
 func init() {
+	register("c16p", genC16Persist)
+	registerKind("c16.persist", runC16Persist)
 	register("c16", genC16)
 	registerKind("c16.acl", runC16Acl)
 	registerKind("c16.http", runC16Http)
